@@ -17,6 +17,11 @@ func TestC02(t *testing.T) {
 			Prop:   "C02",
 			Owned:  core.Own(core.CatHandles, core.CatInvPool, core.CatInvIndex, core.CatPanicCreate, core.CatObserve, core.CatScan),
 			Verify: core.VerifyOpts{Values: false, Relations: false, Scan: true, Hooks: true, Dead: true},
+			// the query returned by NewBatchQ is a creation call's way of returning handles: what it
+			// reports through Next/Entity and EntityAt(i) must be the new handles
+			OwnedIf: func(s *core.Sim, f *core.Finding) bool {
+				return f.Cat == core.CatBatchQuery && len(s.Ops) > 0 && s.Ops[len(s.Ops)-1].K == core.OpBuildBatch
+			},
 		},
 		Mix: core.Mix{
 			core.OpNew: 10, core.OpNewWith: 3, core.OpBuildNew: 5, core.OpBuildBatch: 12,
